@@ -91,7 +91,8 @@ def verify_unit(unit, lemma_items=(), want_canary=True):
     errs = [d for d in diags if d.get("level") == "error" and not d["message"].startswith("aborting")]
     # classify ---------------------------------------------------------------
     failed = {}        # (item, clause) -> list of diag summaries
-    undecided = []     # tool-level problems
+    undecided = []     # tool-level problems (whole unit)
+    undecided_items = {}   # tool-level problems confined to one function (rlimit)
     for d in errs:
         msg = d["message"]
         kind = None
@@ -121,7 +122,14 @@ def verify_unit(unit, lemma_items=(), want_canary=True):
                         # the failing clause names the function under contract
                         item = next((i for i in b.items if i["item"] == o[1]), item)
         if kind is None or item is None:
-            undecided.append("%s [%s]" % (msg, "; ".join(where)))
+            # a tool-level problem: confined to one function if the span says which
+            it0 = None
+            for sp in prim:
+                it0 = it0 or b.item_at(sp["byte_start"])
+            if it0 is not None and re.search(r"rlimit|Resource limit|timed out", msg):
+                undecided_items.setdefault(it0["item"], []).append("%s [%s]" % (msg, "; ".join(where)))
+            else:
+                undecided.append("%s [%s]" % (msg, "; ".join(where)))
             continue
         if kind == "post":
             cl = clause or "post"
@@ -153,6 +161,8 @@ def verify_unit(unit, lemma_items=(), want_canary=True):
                               detail="\n".join(x["rendered"] for x in fl),
                               location="; ".join(fl[0]["where"]),
                               failed_checks=[{"description": x["description"], "where": x["where"]} for x in fl]))
+            elif it["item"] in undecided_items:
+                obs.append(Ob(name, kind, UNDECIDED, "verus/z3", fn=fn, detail="; ".join(undecided_items[it["item"]])[:600]))
             elif tool_fail:
                 obs.append(Ob(name, kind, UNDECIDED, "verus/z3", fn=fn,
                               detail=("timeout" if to else "verus could not decide the unit: " + "; ".join(undecided)[:600] or out[-400:])))
